@@ -275,9 +275,55 @@ fn run_one(exe: &Path, root: &Path, beh: &Value, new_names: &Option<Vec<String>>
             why = Some(format!("final directory tree: {}", d));
         }
     }
+    // The code took a path the model does not have (an event is missing, extra or different): that alone is
+    // not a violation of C23.  Judge what the property itself says on everything that was observed.
+    let mut diverged = false;
+    if let Some(w) = &why {
+        if w.starts_with("hook event") || w.starts_with("extra hook event") {
+            diverged = true;
+            why = prop_check(beh, &events, &final_fs, &result).map(|p| format!("{p} (the code left the model's path: {w})"));
+        }
+    }
     let _ = fs::remove_dir_all(root);
-    Ok(json!({"ok": why.is_none(), "why": why, "at": at, "events": events, "final_fs": final_fs, "result": result,
+    Ok(json!({"ok": why.is_none(), "why": why, "diverged": diverged, "at": at, "events": events, "final_fs": final_fs, "result": result,
               "plan": plan_of(beh)}))
+}
+
+/// C23 as stated, evaluated on the observed directory trees (every hook point and the end).
+fn prop_check(beh: &Value, events: &[Value], final_fs: &Value, result: &str) -> Option<String> {
+    let init = beh["init"].as_str().unwrap();
+    let mode = beh["mode"].as_str().unwrap();
+    let mut seen: Vec<(&str, &Value)> = events.iter().map(|e| ("at a hook point", &e["fs"])).collect();
+    seen.push(("at the end", final_fs));
+    for (at, fs_) in &seen {
+        let out = fs_["out"].as_str().unwrap_or("?");
+        let old = fs_["old"].as_str().unwrap_or("?");
+        let stg = fs_["stg"].as_str().unwrap_or("?");
+        if !(out == init || out == "new" || out == "absent") {
+            return Some(format!("{at} the output path holds '{out}': neither the complete previous set nor the complete new set"));
+        }
+        if init == "prev" && out != "prev" && !(out == "new" || (old == "prev" && stg == "new")) {
+            return Some(format!("{at} the previous set is gone from the output path (now '{out}') and the two copies do not both survive (old='{old}', staging='{stg}')"));
+        }
+    }
+    let out = final_fs["out"].as_str().unwrap_or("?");
+    if result == "ok" && out != "new" {
+        return Some(format!("success reported but the output path holds '{out}'"));
+    }
+    if result == "err" && out == "new" && init != "new" {
+        return Some("failure reported although the new set is live".into());
+    }
+    let reached_publish = events.iter().any(|e| e["a"] == "Rename");
+    if mode == "gen" && result == "err" && !reached_publish {
+        let stray = final_fs["stray"].as_array().map(|a| !a.is_empty()).unwrap_or(false);
+        if out != init {
+            return Some(format!("a failed generation changed the output path ('{init}' -> '{out}')"));
+        }
+        if final_fs["stg"] != "absent" || final_fs["old"] != "absent" || stray {
+            return Some(format!("a failed generation left a staging directory behind (staging='{}', old='{}', stray={})", final_fs["stg"], final_fs["old"], final_fs["stray"]));
+        }
+    }
+    None
 }
 
 pub fn replay(inp: &str, outp: &str, scratch: &str) -> Result<()> {
